@@ -53,3 +53,11 @@ pub fn peek_invalid_type<'de, R: serde_json::de::Read<'de>>(
 ) -> serde_json::Error {
     <serde_json::Error as serde::de::Error>::custom("")
 }
+
+/// `core::str::from_utf8` for the IDL harnesses, whose inputs are ASCII by construction (every
+/// symbolic byte is assumed < 0x80, corpus texts are ASCII): validation cannot fail, and the real
+/// validator's word-at-a-time path depends on pointer alignment, which is nondeterministic under
+/// CBMC (hundreds of loop unrollings per call, 12.4).
+pub fn from_utf8_ascii(v: &[u8]) -> Result<&str, core::str::Utf8Error> {
+    Ok(unsafe { core::str::from_utf8_unchecked(v) })
+}
